@@ -125,6 +125,33 @@ func (w *bworld) valAlias(a sdk.ValAddress) string {
 	return "u" + hex.EncodeToString(a)
 }
 
+// address fields of generated lines: an alias, optionally followed by "U" = the all-upper-case bech32 spelling of
+// the same address (bech32 decoders accept it; it decodes to the same bytes)
+func splitSp(tok string) (int, bool) {
+	if strings.HasSuffix(tok, "U") {
+		return atoi(tok[:len(tok)-1]), true
+	}
+	return atoi(tok), false
+}
+
+func (w *bworld) acctStr(tok string) string {
+	i, up := splitSp(tok)
+	s := w.accts[i].String()
+	if up {
+		return strings.ToUpper(s)
+	}
+	return s
+}
+
+func (w *bworld) valStr(tok string) string {
+	i, up := splitSp(tok)
+	s := w.vals[i].String()
+	if up {
+		return strings.ToUpper(s)
+	}
+	return s
+}
+
 func atoi(s string) int {
 	n, err := strconv.Atoi(s)
 	if err != nil {
@@ -418,8 +445,8 @@ func ethClaimOf(w *bworld, t []string) *ethtypes.EthBridgeClaim {
 		Symbol:                t[6],
 		TokenContractAddress:  t[7],
 		EthereumSender:        t[3],
-		CosmosReceiver:        w.accts[atoi(t[4])].String(),
-		ValidatorAddress:      w.vals[atoi(t[0])].String(),
+		CosmosReceiver:        w.acctStr(t[4]),
+		ValidatorAddress:      w.valStr(t[0]),
 		Amount:                sdk.NewIntFromBigInt(bigOf(t[5])),
 		ClaimType:             ethtypes.ClaimType(atoi(t[8])),
 	}
@@ -542,7 +569,7 @@ func (x *bexec) execTx(line, kind string, t []string) {
 		x.emit(line, ans, "claim."+ans, cls == "ok")
 		x.chkClaim(t, id, pb, foundB, pa, foundA, cls, balB, supB)
 	case "wl":
-		msg := ethtypes.NewMsgUpdateWhiteListValidator(w.accts[atoi(t[0])], w.vals[atoi(t[2])], t[1])
+		msg := ethtypes.MsgUpdateWhiteListValidator{CosmosSender: w.acctStr(t[0]), Validator: w.valStr(t[2]), OperationType: t[1]}
 		cls, _ := w.deliver(&msg)
 		x.emit(line, cls, "wl."+t[1]+"."+cls, cls == "ok")
 	case "lock", "burn":
@@ -550,10 +577,10 @@ func (x *bexec) execTx(line, kind string, t []string) {
 		chain, _ := strconv.ParseInt(t[1], 10, 64)
 		var msg sdk.Msg
 		if kind == "lock" {
-			msg = &ethtypes.MsgLock{EthereumChainId: chain, CosmosSender: w.accts[atoi(t[0])].String(), EthereumReceiver: t[2],
+			msg = &ethtypes.MsgLock{EthereumChainId: chain, CosmosSender: w.acctStr(t[0]), EthereumReceiver: t[2],
 				Amount: sdk.NewIntFromBigInt(bigOf(t[3])), Symbol: t[4], CethAmount: sdk.NewIntFromBigInt(bigOf(t[5]))}
 		} else {
-			msg = &ethtypes.MsgBurn{EthereumChainId: chain, CosmosSender: w.accts[atoi(t[0])].String(), EthereumReceiver: t[2],
+			msg = &ethtypes.MsgBurn{EthereumChainId: chain, CosmosSender: w.acctStr(t[0]), EthereumReceiver: t[2],
 				Amount: sdk.NewIntFromBigInt(bigOf(t[3])), Symbol: t[4], CethAmount: sdk.NewIntFromBigInt(bigOf(t[5]))}
 		}
 		k := w.app.EthbridgeKeeper
@@ -573,7 +600,7 @@ func (x *bexec) execTx(line, kind string, t []string) {
 		x.emit(line, ans, kind+"."+cls, cls == "ok")
 		x.chkPeg(kind, t, cls, bev, pausedB, blB, recvB, peggyB, balB, supB)
 	case "pause":
-		msg := &ethtypes.MsgPause{Signer: w.accts[atoi(t[0])].String(), IsPaused: t[1] == "1"}
+		msg := &ethtypes.MsgPause{Signer: w.acctStr(t[0]), IsPaused: t[1] == "1"}
 		cls, _ := w.deliver(msg)
 		x.emit(line, cls, "pause."+cls, cls == "ok")
 	case "bl":
@@ -581,15 +608,15 @@ func (x *bexec) execTx(line, kind string, t []string) {
 		if t[1] != "-" {
 			l = strings.Split(t[1], ",")
 		}
-		msg := &ethtypes.MsgSetBlacklist{From: w.accts[atoi(t[0])].String(), Addresses: l}
+		msg := &ethtypes.MsgSetBlacklist{From: w.acctStr(t[0]), Addresses: l}
 		cls, _ := w.deliver(msg)
 		x.emit(line, cls, "bl."+cls, cls == "ok")
 	case "recv":
-		msg := ethtypes.NewMsgUpdateCethReceiverAccount(w.accts[atoi(t[0])], w.accts[atoi(t[1])])
+		msg := ethtypes.MsgUpdateCethReceiverAccount{CosmosSender: w.acctStr(t[0]), CethReceiverAccount: w.acctStr(t[1])}
 		cls, _ := w.deliver(&msg)
 		x.emit(line, cls, "recv."+cls, cls == "ok")
 	case "rescue":
-		msg := ethtypes.NewMsgRescueCeth(w.accts[atoi(t[0])], w.accts[atoi(t[1])], sdk.NewIntFromBigInt(bigOf(t[2])))
+		msg := ethtypes.MsgRescueCeth{CosmosSender: w.acctStr(t[0]), CosmosReceiver: w.acctStr(t[1]), CethAmount: sdk.NewIntFromBigInt(bigOf(t[2]))}
 		cls, _ := w.deliver(&msg)
 		x.emit(line, cls, "rescue."+cls, cls == "ok")
 	default:
